@@ -8,16 +8,17 @@ FAULT_MODES = ["before", "before", "after", "base", "dead"]
 
 
 @st.composite
-def reg_cases(draw, max_nodes=8, max_ops=6, faults=True, det_share=15, min_runs=1, disturb_last=False):
-    g = specs.Gen(draw, registry=True, opaque=False)
+def reg_cases(draw, max_nodes=8, max_ops=6, faults=True, det_share=15, min_runs=1, disturb_last=False,
+              late=True, xdeps=False, alias=False, lits=2):
+    g = specs.Gen(draw, registry=True, opaque=False, late=late, xdeps=xdeps, alias=alias, lits=lits)
     n = draw(st.integers(2, max_nodes))
     # make sure there is something to store
     while len(g.nodes) < n:
         g.add_any()
     nodes = g.nodes
-    pure = [i for i, nd in enumerate(nodes) if nd["k"] == "src" and not nd["deps"]]
+    pure = [i for i, nd in enumerate(nodes) if specs.src_kind(nd) == "pure"]
     deletable = [i for i, nd in enumerate(nodes)
-                 if (nd["k"] in ("call", "lit") and nd.get("stored")) or (nd["k"] == "src" and nd["deps"])]
+                 if (nd["k"] in ("call", "lit") and nd.get("stored")) or specs.src_kind(nd) == "dep"]
     ops = []
     nops = draw(st.integers(min_runs, max_ops))
     kinds = ["run"] * 4 + (["failrun"] * 2 if faults else []) + (["update"] * 2 if pure else []) + \
@@ -93,7 +94,7 @@ def check_from_scratch(w, out, op, tag=""):
         if i not in w.stores:
             continue
         s = w.stores[i]
-        if nd["k"] == "src" and not nd["deps"]:
+        if specs.src_kind(nd) in ("pure", "alias"):
             continue
         if nd["k"] == "src":
             exp = W(ref.raw(nd["deps"][0]["n"]))
@@ -114,10 +115,16 @@ def describe(op):
 def spec_classes(spec):
     cl = []
     nodes = spec["nodes"]
-    if any(nd["k"] == "src" and nd["deps"] for nd in nodes):
+    if any(specs.src_kind(nd) == "dep" for nd in nodes):
         cl.append("dependent_source")
-    if any(nd["k"] == "src" and not nd["deps"] for nd in nodes):
+    if any(specs.src_kind(nd) == "pure" for nd in nodes):
         cl.append("pure_source")
+    if any(specs.src_kind(nd) == "alias" for nd in nodes):
+        cl.append("alias_source")
+    if any(nd.get("xdeps") for nd in nodes):
+        cl.append("source_with_extra_deps")
+    if any(nd.get("late") is not None for nd in nodes):
+        cl.append("late_registration")
     if any(nd["k"] == "lit" and nd.get("stored") for nd in nodes):
         cl.append("stored_literal")
     ent = refmodel.entries(spec)
